@@ -238,3 +238,40 @@ def _(self, decoder: Obj("Decoder")) -> Int:
     # a fixed-size form consumes exactly `length` octets; truncation is OutOfDataError (C16), never struct.error
     ensures(implies(self.fmt is not None, decoder.number_of_bits == old(decoder.number_of_bits) - 8 * self.length))
     ensures(decoder.number_of_bits < old(decoder.number_of_bits))
+
+
+@contract("MembersType.encode_member", props=["C12", "C01", "C06"], for_class="any")
+def _(self, member: Obj("Type"), data: Map('str', Val), encoder: Obj("Encoder"), encode_default: Bool):
+    # X.696 16: a component equal to its DEFAULT is not encoded (unless it is an extension addition); absent
+    # OPTIONAL/DEFAULT components add nothing; a missing mandatory component is an encode error; an error inside the
+    # component is located at it (C12)
+    raises(EncodeError, ensures=[implies(member.name in data, located_at(exc, member))])
+    raises(OverflowError)
+    raises(UnicodeEncodeError)
+    assigns(encoder)
+    ensures(member.name in data or member.optional or member.default is not None)
+    ensures(encoder.number_of_bits >= old(encoder.number_of_bits))
+    ensures(implies(member.name not in data,
+                    encoder.number_of_bits == old(encoder.number_of_bits) and encoder.value == old(encoder.value)))
+    ensures(implies(member.name in data and member.default is not None and not encode_default
+                    and is_dflt(ident(member), data[member.name]),
+                    encoder.number_of_bits == old(encoder.number_of_bits) and encoder.value == old(encoder.value)))
+
+
+@contract("MembersType.encode_root", props=["C06", "C01", "C12"], for_class="any")
+def _(self, data: Map('str', Val), encoder: Obj("Encoder")):
+    # X.696 16.2: one preamble bit per OPTIONAL/DEFAULT root component, padded to the octet boundary, then the
+    # components in order
+    raises(EncodeError)
+    raises(OverflowError)
+    raises(UnicodeEncodeError)
+    assigns(encoder)
+    ghost_init(g_pre=0)
+    at_stmt("@loop1", set=dict(g_pre=encoder.number_of_bits))
+    ensures(g_pre % 8 == 0 and g_pre >= old(encoder.number_of_bits) + len(self.optionals)
+            and g_pre < old(encoder.number_of_bits) + len(self.optionals) + 8)
+    ensures(encoder.number_of_bits >= g_pre)
+    loop(0, invariant=[encoder.number_of_bits == old(encoder.number_of_bits) + _i0, _i0 <= len(self.optionals)])
+    loop(1, invariant=[encoder.number_of_bits >= g_pre, g_pre % 8 == 0,
+                       g_pre >= old(encoder.number_of_bits) + len(self.optionals),
+                       g_pre < old(encoder.number_of_bits) + len(self.optionals) + 8])
